@@ -1,6 +1,6 @@
 """C13 — a singly-linked list equals a reference sequence and its tail is the true last"""
 import vlib
-from areas import slist
+from areas import slist, lists_tie
 
 
 def in_domain(script):
@@ -15,6 +15,7 @@ def in_domain(script):
 def run(chk):
     c_exe, m_exe = vlib.prepare_area(chk, slist, leanchecker=True)
     vlib.translator_tie(chk, "slist", slist.TIE_MODULE, slist.TIE_THEOREMS)
+    lists_tie.tie2_run(chk, "slist")
     if c_exe:
         vlib.run_scripts(chk, slist, c_exe, m_exe, slist.corpus(), slist.oracle)
         if chk.tier == "quick":
